@@ -14,8 +14,14 @@ L2 characters both 6-bit tables equal the Annex 10 subset at its 37 defined code
 L3 DF20/BDS05 every store of Some(..) into DF20DataSelector.bds05 happens under the fact
               altitude-of-the-payload == altitude-of-the-header; DF21DataSelector.bds05 is never
               stored a Some.
-Not decided: the scale / offset arithmetic of each field beyond what C08 (ranges, steps) and C13
-(altitude codes) decide, and the round trip itself.
+L4 scales     for the numeric fields of spec table props/c03_scales.py (BDS 0,6 0,9 4,0 4,4 4,5 5,0 6,0 6,2): the
+              expression computed for the field on every path of its reader / map closure (a symbolic term
+              over the field's bits, with the path condition restricted to those bits) is evaluated for every
+              combination of the field's bits the path admits and compared with the value the standard
+              assigns to that code.  Where the reader reports None or rejects the register nothing is
+              compared (validity filters of the Comm-B inference are the implementation's choice).
+Not decided: the round trip itself (a frame built by an independent encoder); the altitude and identity
+codes are C13's, ranges and steps C08's.
 """
 import json
 import os
@@ -338,6 +344,256 @@ def run(prog, rep, tier):
     rep.floor('fields compared with the layout table', nf, 300)
     l2_chars(prog, rep)
     l3_df20(prog, rep)
+    l4_scales(prog, rep, tier)
+
+
+def field_producers(prog, body, name):
+    """{field key: set of depth-0 call blocks whose result is the nearest producer of the field's operand}"""
+    sites = {}
+    for bi, bb in enumerate(body['blocks']):
+        t = bb['t']
+        if t and t['k'] == 'call':
+            sites[id(t['args'])] = bi
+
+    def is_reader(l):
+        t2 = prog.types[body['locals'][l]]
+        while t2['k'] in ('ref', 'ptr'):
+            t2 = prog.types[t2['to']]
+        return t2['k'] == 'adt' and t2['name'].startswith('deku::reader::Reader')
+
+    class TT(dataflow.Taint):
+        def place_taint(self, pl):
+            if is_reader(pl['l']):
+                return set()
+            return super().place_taint(pl)
+
+        def add(self, l, s):
+            if is_reader(l):
+                return False
+            return super().add(l, s)
+
+    def call_result(c, ats, args):
+        bi = sites.get(id(args))
+        nm = (c.get('rname') or c.get('name') or '')
+        if bi is None or c.get('item') in ('branch', 'from_residual', 'from', 'into', 'clone', 'map_err', 'ok_or', 'unwrap', 'deref'):
+            return set().union(*ats) if ats else set()      # plumbing (`?`, conversions): transparent
+        return {bi}
+    tt = TT(prog, body, lambda pl: None, call_result=call_result)
+    out = {}
+    ftypes = {}
+    for bb in body['blocks']:
+        for s in bb['s']:
+            if s['k'] == 'assign' and s['rv']['k'] == 'agg' and s['rv']['ak']['k'] == 'adt' and prog.types[s['rv']['ak']['ty']]['name'] == name:
+                t2 = prog.types[s['rv']['ak']['ty']]
+                var = t2['variants'][s['rv']['ak']['variant']]
+                for f, o in zip(var['fields'], s['rv']['ops']):
+                    key = (var['name'] + '.' if t2['ak'] == 'enum' else '') + f['name']
+                    ftypes[key] = f.get('ty')
+                    out.setdefault(key, set()).update(x for x in tt.operand_taint(o) if isinstance(x, int))
+    return out, ftypes
+
+
+def _scale_job(a):
+    sys.setrecursionlimit(20000)
+    return scale_states(_PROG, a[0], a[1], a[2])
+
+
+def scale_states(prog, name, K, only):
+    """for each field of the scale table: the distinct (path condition on the field's bits, value term) pairs"""
+    import terms
+    from props.c03_scales import SCALES
+    body = reader_of(prog, name)
+    if body is None:
+        return None
+    prods, ftypes = field_producers(prog, body, name)
+    want = {only: SCALES[name][only]}
+    mine_bits = set()
+    for p_, w_ in want[only]['atoms'].values():
+        mine_bits.update(range(p_, p_ + w_))
+    blk_fields = {}
+    for f, blks in prods.items():
+        if f in want:
+            for bi in blks:
+                blk_fields.setdefault(bi, set()).add(f)
+    old = A.TERM_LIMIT
+    A.TERM_LIMIT = 100
+    try:
+        E = runner.make_engine(prog, K=K)
+        E.per_caller_budget = True
+        # slice: every bit of the register outside this field reads as 0 (one path through the other fields)
+        E.bits_override = lambda pos, width: None if any(b_ in mine_bits for b_ in range(pos, pos + width)) else 0
+        rec = []
+
+        class H:
+            def exit(self, E_, nf, rets):
+                if nf.depth != 1:
+                    return
+                fs = blk_fields.get(nf.path[-1][1])
+                if not fs:
+                    return
+                rty = prog.types[nf.body['locals'][0]]
+                if rty['k'] != 'adt' or not rty['name'].endswith('Result') or not rty.get('args'):
+                    return
+                for f in fs:
+                    if ftypes.get(f) == rty['args'][0]:
+                        for st, v in rets:
+                            rec.append((f, st, v))
+        h = H()
+
+        class AnyHooks(dict):
+            def get(self, k, d=None):
+                return h
+        E.hooks = AnyHooks()
+        cell = ('o', ('p', 'reader'))
+
+        def pre(E_, st, fr):
+            st.cells[cell] = util.synthetic_reader(E_)
+        runner.run_entry(E, body, [('R', cell, (), True)] + [None] * (body['argc'] - 1), pre=pre, quiet=True)
+        out = {}
+        for f, st, v in rec:
+            spec = want[f]
+            mine = {(p, w): nm for nm, (p, w) in spec['atoms'].items()}
+            r = st.resolve(E.expand(v))
+            if r == A.BOT or r[0] != 'E':
+                continue
+            for vi, fs in r[2]:
+                if vi != 0:
+                    continue            # Err: the register is rejected
+                x = st.resolve(E.expand(fs[0]))
+                vals = []
+                def tm(y):
+                    if y[4] is not None:
+                        return y[4]
+                    if y[1] == y[2] and not (y[0] == 'F' and y[3]):
+                        return A.T('c', y[1])
+                    return None
+                if x != A.BOT and x[0] in ('I', 'F'):
+                    vals.append(('val', tm(x), x[0]))
+                elif x != A.BOT and x[0] == 'E':
+                    for v2, f2 in x[2]:
+                        if f2:
+                            y = E.scalar(st, f2[0])
+                            vals.append(('val', tm(y), y[0]) if y[0] in ('I', 'F') else ('opaque', None, None))
+                        else:
+                            vals.append(('none', None, None))
+                else:
+                    vals.append(('opaque', None, None))
+                # path condition restricted to this field's bits
+                cond = []
+                for t, iv in st.rf.items():
+                    ats = terms.atoms_of(t)
+                    if ats and all(a[0] == 'bits' and (a[2], a[3]) in mine for a in ats):
+                        cond.append((t, (iv[0], iv[1])))
+                for fa in st.facts:
+                    if fa[0] in ('Eq', 'Ne', 'Lt', 'Le', 'Gt', 'Ge') and isinstance(fa[1], tuple) and isinstance(fa[2], tuple):
+                        ats = terms.atoms_of(fa[1]) | terms.atoms_of(fa[2])
+                        if ats and all(a[0] == 'bits' and (a[2], a[3]) in mine for a in ats):
+                            cond.append(((fa[0], fa[1], fa[2]), (1, 1)))
+                for kind, t, k2 in vals:
+                    out.setdefault(f, set()).add((kind, t, k2, frozenset(cond)))
+        return out
+    finally:
+        A.TERM_LIMIT = old
+
+
+def l4_scales(prog, rep, tier):
+    import multiprocessing as mp
+    import terms
+    from props.c03_scales import SCALES
+    global _PROG
+    _PROG = prog
+    names = sorted(SCALES)
+    K = 64
+    jobs = [(n, K, f) for n in names for f in sorted(SCALES[n])]
+    results = {n: {} for n in names}
+    with mp.get_context('fork').Pool(min(16, os.cpu_count() or 4)) as pool:
+        for (n, _, f), r in zip(jobs, pool.map(_scale_job, jobs, chunksize=1)):
+            if r is None:
+                results[n] = None
+            elif results[n] is not None:
+                results[n].update(r)
+    nfields = 0
+    ncodes = 0
+    for name in names:
+        short = name.split('::')[-1]
+        body = reader_of(prog, name)
+        site = body['file'] if body else '-'
+        res = results[name]
+        if res is None:
+            rep.missing('deku reader of ' + name)
+            continue
+        for f, spec in sorted(SCALES[name].items()):
+            nfields += 1
+            key = '%s.%s' % (short, f)
+            states = res.get(f) or set()
+            if not states:
+                rep.missing('value expression of %s' % key, '(no reader / map closure result flows into the field)')
+                continue
+            atoms = spec['atoms']
+            names_ = sorted(atoms)
+            total = 1
+            for nm in names_:
+                total *= 1 << atoms[nm][1]
+            stride = 1
+            if tier == 'quick' and total > 4096:
+                stride = 1          # every code also in the quick tier: the tables are small
+            tol = spec.get('tol')
+            bad = None
+            compared = 0
+            opaque = 0
+            for kind, t, k2, cond in states:
+                if kind == 'opaque':
+                    opaque += 1
+            evaluable = [s_ for s_ in states if s_[0] in ('val', 'none')]
+            for code in range(0, total, stride):
+                env_names = {}
+                c = code
+                for nm in names_:
+                    w = atoms[nm][1]
+                    env_names[nm] = c & ((1 << w) - 1)
+                    c >>= w
+                want = spec['f'](**env_names)
+                if want is None:
+                    continue
+                for kind, t, k2, cond in evaluable:
+                    if kind != 'val':
+                        continue
+                    env = {}
+                    ok_atoms = True
+                    for a in terms.atoms_of(t) | set(x for ct, _ in cond for x in terms.atoms_of(ct)):
+                        if a[0] == 'bits' and (a[2], a[3]) in [atoms[n_] for n_ in names_]:
+                            nm = next(n_ for n_ in names_ if atoms[n_] == (a[2], a[3]))
+                            env[a] = env_names[nm]
+                        else:
+                            ok_atoms = False
+                    if not ok_atoms:
+                        bad = bad or ('the value of %s depends on %s, not only on its own bits %s' % (key, sorted(A.show_term(a_) for a_ in terms.atoms_of(t) if a_ not in env), atoms))
+                        continue
+                    adm = True
+                    for ct, (lo, hi) in cond:
+                        try:
+                            cv = terms.point_eval(ct, env)
+                        except terms.NotNormal:
+                            continue
+                        if cv != cv or not (lo <= cv <= hi):
+                            adm = False
+                            break
+                    if not adm:
+                        continue
+                    try:
+                        got = terms.point_eval(t, env)
+                    except terms.NotNormal as e:
+                        bad = bad or ('expression of %s not evaluable: %s' % (key, e))
+                        continue
+                    compared += 1
+                    lim = tol if tol is not None else 1e-9 * max(1.0, abs(want))
+                    if got != got or abs(got - want) > lim:
+                        bad = bad or ('%s with bits %s decodes to %r, the standard assigns %r (expression %s)' % (key, env_names, got, want, A.show_term(t)[:120]))
+            ncodes += compared
+            rep.check(bad is None and compared > 0, 'L4-scales', key, site, bad or ('no code of %s could be evaluated (%d opaque expressions)' % (key, opaque)),
+                      sample={'field': key, 'codes compared': compared, 'paths': len(evaluable)} if nfields % 6 == 1 else None)
+    rep.floor('fields with a scale rule', nfields, 33)
+    rep.floor('field codes compared with the standard', ncodes, 20000)
 
 
 def l2_chars(prog, rep):
